@@ -86,8 +86,32 @@ def optElem (j : Json) : Except String (Option Elem) :=
   | .null => pure none
   | _ => do pure (some (← elemOf j))
 
+def editOf (j : Json) : Except String Edit := do
+  let path ← j.getObjValAs? (List Nat) "path"
+  match (← j.getObjValAs? String "edit") with
+  | "setAttr" => do pure (Edit.setAttr path (← getStr j "name") (← getStr j "value"))
+  | "delAttr" => do pure (Edit.delAttr path (← getStr j "name"))
+  | "setText" => do pure (Edit.setText path (← optStr (← j.getObjVal? "value")))
+  | "insertKid" => do pure (Edit.insertKid path (← getNat j "index") (← elemOf (← j.getObjVal? "kid")))
+  | "removeKid" => do pure (Edit.removeKid path (← getNat j "index"))
+  | e => throw s!"unknown edit {e}"
+
+/-- index of the first edit of a script that is not accepted (`Edit.ok`) in the document it meets -/
+def firstBad : List Edit → Doc → Nat → Option Nat
+  | [], _, _ => none
+  | e :: es, d, i => if e.ok d then firstBad es (e.apply d) (i + 1) else some i
+
 def handle (op : String) (j : Json) : Except String Json := do
   match op with
+  | "xml.history" =>
+    -- C02: an observed step of an API history as a script of modelled edits: the contract `okAll` the theorems
+    -- assume, and whether the script really leads from the tree before to the tree after
+    let d ← docOf (← j.getObjVal? "doc")
+    let after ← docOf (← j.getObjVal? "after")
+    let es ← (← (← j.getObjVal? "edits").getArr?).toList.mapM editOf
+    let bad := firstBad es d 0
+    pure (Json.mkObj [("ok", okAll es d), ("same", Doc.beq (applyAll es d) after),
+      ("first_bad", match bad with | some i => Json.num (JsonNumber.fromNat i) | none => Json.null)])
   | "xml.updateNs" =>
     -- `ModelFile.update_namespaces(viewpoints)` with the live plugin table
     let d ← docOf (← j.getObjVal? "doc")
